@@ -131,3 +131,11 @@ func verifLemmaUnknownAttrsRoundTrip(m *Message, a UnknownAttributes) (UnknownAt
 
 	return got, err
 }
+
+// verifLemmaEqualAfterDecode (C03, "and Equal agrees"): a well-formed message is Equal to the decode of a copy of its
+// own bytes (its attribute types being final ones, not the legacy alias that Decode rewrites).
+func verifLemmaEqualAfterDecode(m, d *Message) bool {
+	err := m.CloneTo(d)
+
+	return err == nil && m.Equal(d)
+}
